@@ -32,7 +32,9 @@ class Scope:
                 if "~" in var:
                     continue
                 for n, c in src.visible:
-                    if c in t.scope:
+                    # (a union changes the type of a column: a reference taken where the column has another type
+                    # would type-check its expression with that type, DESIGN 4.14)
+                    if c in t.scope and src.fam.get(c) == t.fam.get(c):
                         ref = {"v": var, "n": n}
                         self.by_fam[t.fam[c]].append((ref, c))
                         self.capt.append((ref, c))
